@@ -841,6 +841,23 @@ theorem pathParams_simple {V : Type} (paths : List (Path2 V)) (h : paths.all pat
       congr 1
       simp [toV3PathS, inputs_simple p.params hp.1]
 
+/-- the v3 document ToV3 builds on the simple fragment, explicitly -/
+theorem toV3Raw_simple {V : Type} (d : Doc2 V) (h : docSimple d = true) (secs : List (String × Sec3))
+    (hsecs1 : mapSecs d.secs = .ok secs) :
+    toV3Raw d = .ok { servers := toV3Servers d.loc, cparams := [], cbodies := [],
+                      cschemas := d.defs.map (fun ks => (ks.1, ({ formName := none, schema := toV3S ks.2 } : CSchema V))),
+                      cresponses := d.responses.map (fun kr => (kr.1, toV3Resp d.produces kr.2)), secs := secs,
+                      paths := d.paths.map toV3PathS } := by
+  simp only [docSimple, Bool.and_eq_true, List.isEmpty_iff] at h
+  obtain ⟨⟨⟨⟨⟨⟨hparams, hpaths⟩, hresps⟩, hnodup⟩, hdefs⟩, hsecs⟩, hloc⟩ := h
+  have hp : mapRes (toV3Path { cbodies := [], cschemas := [] } d.consumes) d.paths = .ok (d.paths.map toV3PathS) :=
+    mapRes_ok _ _ _ (fun p hp => toV3Path_simple _ _ p (List.all_eq_true.mp hpaths p hp))
+  have hmerge : mergeSchemas ([] : List (String × CSchema V)) d.defs =
+      d.defs.map (fun ks => (ks.1, ({ formName := none, schema := toV3S ks.2 } : CSchema V))) := by
+    have := mergeSchemas_nodup d.defs [] hnodup (by intro kv _; rfl)
+    simpa [mergeSchemas] using this
+  simp [toV3Raw, hparams, sharedP3, hp, hsecs1, hmerge]
+
 /-- **Document level, ToV3** (full Api equality on the simple fragment): a document without shared parameters
     whose operations take inline query / header / path parameters converts, and the converted document
     describes the same API — the same paths, methods, operation ids, parameters, responses (inline or
